@@ -152,8 +152,8 @@ func run(c Case) (pbt.Outcome, error) {
 
 	checkArrived := func(what string) {
 		for si, s := range sinks {
-			if !s.WaitCount(expected, 2*time.Second) {
-				errs.Addf("%s: sink %d has %d datagrams 2s after a successful Flush, want %d", what, si, s.Count(), expected)
+			if !s.WaitAll(expected) {
+				errs.Addf("%s: sink %d has %d datagrams 30s after a successful Flush, want %d", what, si, s.Count(), expected)
 				return
 			}
 			got := s.Datagrams()
@@ -348,7 +348,7 @@ func run(c Case) (pbt.Outcome, error) {
 			if dead[si] {
 				continue
 			}
-			s.WaitCount(expected+must, 2*time.Second)
+			s.WaitAll(expected + must)
 			time.Sleep(300 * time.Microsecond)
 			got := s.Datagrams()
 			if len(got) < expected {
@@ -520,7 +520,7 @@ func runRep(c RepCase) (pbt.Outcome, error) {
 	for _, n := range c.Up1 {
 		emit(n, "up1")
 	}
-	if !sink.WaitCount(nb(), 5*time.Second) {
+	if !sink.WaitAll(nb()) {
 		errs.Addf("destination up: %d batches emitted, %d datagrams arrived", nb(), sink.Count())
 	}
 	first := sink.Datagrams()
